@@ -6,6 +6,14 @@ VERIF = os.path.dirname(os.path.dirname(os.path.abspath(__file__)))
 props = [json.loads(l) for l in open(os.path.join(VERIF, "properties.jsonl"))]
 
 CLAIMS = {
+ "C15": dict(
+  text="Gallina model of Equals/Compare/HashKey/contains/sorted/IsTruthy over ints (wrapping), floats (bit patterns), bytes, strings, bools, nil, byte_slices and nested lists/maps/sets. Proved for all values: == is reflexive off NaN; symmetric and transitive under explicit guards, with kernel-checked refutation witnesses for the unguarded statements (int/float rounding above 2^53); != is the negation; <,<=,>,>= form a total preorder consistent with == on every single type (int, float without NaN, byte, string, bool, lists of one type) with a refutation for mixed lists; set membership agrees with == under a guard (refuted across numeric types); sorted is a stable ordered permutation and idempotent; truthiness agrees with len. Tied by differential runs of the extracted model against object-API and script evaluation of the same operand tuples, plus algebraic oracles on the implementation alone.",
+  note="Trusted: Coq kernel, extraction, harness, float bit-pattern conversion in the harness. Known findings: int/float equality is not transitive above 2^53; set membership is per-type.",
+  technique="Rocq theorems on a Gallina model of the value algebra + extracted-model correspondence + algebraic oracles", ref="DESIGN.md section 5 C15"),
+ "C16": dict(
+  text="The index/slice resolution functions are regenerated from object/list.go by a mini-translator and proved equal to the specification for all integers. Lists are modelled as Go slices (backing array + length, in-place delete, append growth) and proved to refine immutable mathematical lists for every operation sequence (C16_refines), with read-only operations pure, a frame theorem, errors leaving the state unchanged; maps and sets satisfy the finite-map / finite-set laws; byte_slices refine independent byte strings; strings index and slice by code point (UTF-8 round trip proved for all valid code points). Tied by running random operation histories through the extracted model and through scripts and the object API, comparing every result and the final store.",
+  note="Trusted: Coq kernel, c16tr (go/ast translator for resolveIndex/resolveIntSlice), extraction, harness. The Go runtime's slice semantics are modelled (gslice), not verified.",
+  technique="Rocq refinement proof (Go-slice model to mathematical lists) + regenerated index arithmetic + extracted-model correspondence over operation histories", ref="DESIGN.md section 5 C16"),
  "C19": dict(
   text="Every wrapper is a record interpreted by a generic Gallina interpreter with the Go function as a parameter. Proved for all records and all argument tuples: exact agreement with the Go function on converted arguments, the first conversion error otherwise, value guards (repeat) give errors, never panics. Every record regenerated from the source by go/ast passes its parameters in declaration order to the specified callee (kernel computation over the regenerated table). Codec inversion is proved from the encoder/decoder law; hex is proved outright; the tree-level JSON round trip is guarded by |int| <= 2^53 and valid UTF-8 with refutation witnesses; json.marshal equals the codec on the JSON domain. Tied by differential runs of every wrapped function through the object API and through scripts against direct Go calls, and of the codecs against an independent Python reference.",
   note="Trusted: Coq kernel, c19gen (go/ast) and the specification tables (re-validated by executing each record against the implementation), extraction, harness, Python reference codecs. The Go standard library is a parameter; the round-trip law of base64/base32/gzip/urlquery is a section hypothesis tested on every run; 19 irregular wrappers are covered differentially only. Known findings: JSON integers above 2^53, invalid UTF-8 in JSON, byte_slice encoding differs between codec and json.marshal.",
